@@ -121,6 +121,13 @@ class Ctx(object):
                 self._owners[h] = own
         return self._owners.get(name, set())
 
+    def is_helper(self, name):
+        """an unknown function that is analysed as part of its callers: it has direct callers.  (An unknown function that is
+        only stored in a table of function pointers has no caller to be analysed in: it stands for itself.)"""
+        if name not in self.unknown_funcs:
+            return False
+        return bool(self.owners(name))
+
     def deep_funcs(self, fn):
         """fn plus the unknown helpers it reaches through unknown helpers only"""
         out, work, seen = [], [fn], set()
